@@ -161,7 +161,10 @@ func (calc *CouplingMetricsCalculator) calculateSystemMetrics() {
 	var totalFanIn, totalFanOut float64
 	var totalInstability, totalAbstractness, totalDistance float64
 
-	for _, metrics := range calc.graph.ModuleMetrics {
+	// Floating-point addition is not associative: add in module name order so
+	// that the sums do not depend on map iteration order
+	for _, moduleName := range calc.sortedMetricModules() {
+		metrics := calc.graph.ModuleMetrics[moduleName]
 		totalFanIn += float64(metrics.AfferentCoupling)
 		totalFanOut += float64(metrics.EfferentCoupling)
 		totalInstability += metrics.Instability
@@ -270,7 +273,8 @@ func (calc *CouplingMetricsCalculator) calculateSystemComplexity() float64 {
 		mean := calc.graph.SystemMetrics.AverageInstability
 		var sumSquaredDiffs float64
 
-		for _, metrics := range calc.graph.ModuleMetrics {
+		for _, moduleName := range calc.sortedMetricModules() {
+			metrics := calc.graph.ModuleMetrics[moduleName]
 			diff := metrics.Instability - mean
 			sumSquaredDiffs += diff * diff
 		}
@@ -363,7 +367,10 @@ func (calc *CouplingMetricsCalculator) identifyRefactoringPriorities() []string 
 
 	// Sort by priority (highest first)
 	sort.Slice(candidates, func(i, j int) bool {
-		return candidates[i].priority > candidates[j].priority
+		if candidates[i].priority != candidates[j].priority {
+			return candidates[i].priority > candidates[j].priority
+		}
+		return candidates[i].module < candidates[j].module
 	})
 
 	// Return top 10 candidates
@@ -378,6 +385,16 @@ func (calc *CouplingMetricsCalculator) identifyRefactoringPriorities() []string 
 	}
 
 	return result
+}
+
+// sortedMetricModules returns the names of the modules that have metrics, sorted
+func (calc *CouplingMetricsCalculator) sortedMetricModules() []string {
+	names := make([]string, 0, len(calc.graph.ModuleMetrics))
+	for moduleName := range calc.graph.ModuleMetrics {
+		names = append(names, moduleName)
+	}
+	sort.Strings(names)
+	return names
 }
 
 // isModuleInCycle checks if a module is part of any circular dependency
